@@ -206,6 +206,8 @@ def filter_menu(kmax):
         out.append((k, ('nopal',)))
         out.append((k, ('table', [])))
         out.append((k, ('table', [O.kmer(0, k)])))
+        for tail in ([4 ** k - 1], [4 ** k - 2], [4 ** k - 4, 4 ** k - 3], [1], [4 ** k // 2]):
+            out.append((k, ('table', [O.kmer(v, k) for v in tail if 0 <= v < 4 ** k])))
         out.append((k, ('table', [O.kmer(4 ** k - 1, k), O.kmer(4 ** k // 3, k)])))
         out.append((k, ('table', [O.kmer(v, k) for v in range(4 ** k) if v % 3 == 0])))
     return out
